@@ -498,8 +498,92 @@ fn one_round(rng: &mut Rng, case: &mut Case) -> Outcome {
     Outcome::Held
 }
 
+/// Cold start: in a FRESH process, the very first jet executions happen on 16 threads at once (whatever the library
+/// or the C glue initialises lazily is initialised under contention); the one-at-a-time results are computed afterwards.
+/// Returns a description of the first difference.
+pub fn cold_process(seed: u64) -> Result<u64, String> {
+    let mut rng = Rng::new(seed);
+    let mut pool: Vec<Item> = Vec::new();
+    let mut tries = 0;
+    while pool.len() < 4 && tries < 60 {
+        tries += 1;
+        if let Some(p) = gen_prog_item(&mut rng) {
+            // only programs that run a jet are interesting here
+            if p.dag.nodes.iter().any(|o| matches!(o, Op::Jet(_))) {
+                pool.push(Item::Prog(Box::new(p)));
+            }
+        }
+    }
+    if pool.is_empty() {
+        return Ok(0);
+    }
+    let ops = ["exec-shared", "exec-own", "c-pipeline", "prune-shared"];
+    let threads = 16usize;
+    let started = AtomicUsize::new(0);
+    let results: Mutex<Vec<(usize, usize, usize, String)>> = Mutex::new(Vec::new());
+    let pool_ref = &pool;
+    std::thread::scope(|s| {
+        for th in 0..threads {
+            let (started, results) = (&started, &results);
+            s.spawn(move || {
+                started.fetch_add(1, Ordering::SeqCst);
+                while started.load(Ordering::SeqCst) < threads {
+                    std::hint::spin_loop();
+                }
+                let mut local = Vec::new();
+                for k in 0..pool_ref.len() * ops.len() {
+                    let i = (k + th) % pool_ref.len();
+                    let o = (k / pool_ref.len() + th) % ops.len();
+                    let d = std::panic::catch_unwind(std::panic::AssertUnwindSafe(|| run_op(&pool_ref[i], ops[o]))).unwrap_or_else(|_| "panic".into());
+                    local.push((th, i, o, d));
+                }
+                results.lock().unwrap().extend(local);
+            });
+        }
+    });
+    let results = results.into_inner().unwrap();
+    let mut n = 0u64;
+    for (th, i, o, d) in results {
+        let want = run_op(&pool[i], ops[o]);
+        n += 1;
+        if d != want {
+            return Err(format!("operation `{}` on program {} gave on thread {} of a fresh process: {} ; afterwards, one at a time: {}", ops[o], i, th, truncate(&d, 300), truncate(&want, 300)));
+        }
+    }
+    Ok(n)
+}
+
 pub fn run(ctx: &Ctx) {
     let t = ctx.tier;
+    // cold starts: child processes of this worker (same binary, same sanitizer)
+    let cold = ctx.param_u64("cold", t.pick(240, 6_000));
+    ctx.run_sub("cold-start-processes", Plan::sample(cold, 0.25), |rng, case| {
+        let seed = rng.next_u64();
+        case.desc = format!("fresh process, seed {}", seed);
+        case.hash = Some(seed);
+        let exe = match std::env::current_exe() {
+            Ok(e) => e,
+            Err(e) => return Outcome::Inconclusive(format!("current_exe: {}", e)),
+        };
+        let out = match std::process::Command::new(exe).args(["C20-cold", "--seed", &seed.to_string()]).output() {
+            Ok(o) => o,
+            Err(e) => return Outcome::Inconclusive(format!("spawn: {}", e)),
+        };
+        let stdout = String::from_utf8_lossy(&out.stdout).into_owned();
+        let stderr = String::from_utf8_lossy(&out.stderr).into_owned();
+        match out.status.code() {
+            Some(0) => {
+                let n: u64 = stdout.trim().rsplit(' ').next().and_then(|x| x.parse().ok()).unwrap_or(0);
+                case.add("cold.operations-compared", n);
+                if n == 0 { Outcome::Trivial } else { Outcome::Held }
+            }
+            Some(1) => violated("cold-start-result-differs", format!("{} ; {}", stdout.trim(), case.desc)),
+            other => {
+                let kind = if stderr.contains("ThreadSanitizer") { "tsan" } else if stderr.contains("AddressSanitizer") { "asan" } else { "died" };
+                violated(format!("cold-start-{}:{:?}", kind, other), format!("child process ended with {:?} ; stderr: {} ; {}", out.status, truncate(&stderr, 1500), case.desc))
+            }
+        }
+    });
     let rounds = ctx.param_u64("rounds", t.pick(1_200, 200_000));
     ctx.run_sub("mixed-rounds", Plan::sample(rounds, 0.9), |rng, case| one_round(rng, case));
 }
